@@ -297,7 +297,7 @@ func (inst *Instance) open(ctx context.Context) error {
 		zerologger.Logger = zerolog.New(io.Discard)
 		zerolog.SetGlobalLevel(zerolog.TraceLevel)
 	}
-	rulesSvc, err := standardrules.New(ctx,
+	rulesSvc, err := newRules(ctx,
 		standardrules.WithLogLevel(level),
 		standardrules.WithStoragePath(inst.Dir),
 		standardrules.WithAdminIPs(inst.AdminIPs),
@@ -341,7 +341,7 @@ func (inst *Instance) open(ctx context.Context) error {
 
 // Restart closes the protection store and opens a new set of services on the same directory.
 func (inst *Instance) Restart(ctx context.Context) error {
-	if err := inst.Rules.Close(ctx); err != nil {
+	if err := closeRules(ctx, inst.Rules); err != nil {
 		return err
 	}
 	return inst.open(ctx)
@@ -352,7 +352,7 @@ func (inst *Instance) Close(ctx context.Context) {
 		zerolog.SetGlobalLevel(zerolog.Disabled)
 	}
 	verifhook.Set(nil)
-	_ = inst.Rules.Close(ctx)
+	_ = closeRules(ctx, inst.Rules)
 	_ = os.RemoveAll(inst.Dir)
 }
 
